@@ -1,25 +1,51 @@
 ------------------------------- MODULE Arena -------------------------------
 (* Offline arena plan of an output model (property C12).
    A plan is a sequence of tensor records
-     [off, size, first, last, cpu, cin, cout]
+     [off, size, first, last, var, cpu, cin, cout]
    off/size : arena byte interval;  first/last : first definition / last use in the operator order of the
-   output graph (-1 = subgraph input, number of operators = subgraph output, variables live throughout);
+   output graph (-1 = subgraph input, number of operators = subgraph output);  var : a variable (state) tensor -
+   it keeps its value from one inference to the next, so it is live throughout whatever its uses are;
    cpu : operand of a CPU operator or of the custom operator (alignment applies);
    cin / cout : sets of ethos-u operators that read / write the tensor.
    Two tensors may share bytes only if their live intervals are disjoint - except that an output of an
    ethos-u operator may share bytes with an input of that same operator whose last use is that operator
-   (Vela fuses the ranges of in-place elementwise operations; byte-level safety of that is C03).          *)
+   (Vela fuses the ranges of in-place elementwise operations; byte-level safety of that is C03).
+
+   The activations of an output model: every tensor without constant data that an operator of the output graph
+   reads or writes or that is a subgraph input / output, as records
+     [name, off (-1 = the metadata gives it no place), size, first, last, var, scratch]
+   scratch : the ethos-u scratch / fast-scratch operand (the arena as the NPU sees it, not a value of its own).
+   PlanComplete: every activation has a place (the kernels write it wherever the run time puts it otherwise).
+   PeakLive: a lower bound of the arena that does not depend on the plan at all - the activations that hold a
+   value between two consecutive operators cannot share bytes, and neither can the operands of one CPU operator
+   (a CPU kernel never works in place here; for an ethos-u operator the in-place exception above applies, so only
+   the values that survive it are counted).                                                                  *)
 EXTENDS Integers, Sequences, FiniteSets
 
 S(seq) == {seq[i] : i \in 1..Len(seq)}
+First(a) == IF a.var THEN -1 ELSE a.first
+Last(a, nops) == IF a.var THEN nops ELSE a.last
 BytesOverlap(a, b) == a.off < b.off + b.size /\ b.off < a.off + a.size /\ a.size > 0 /\ b.size > 0
-LiveOverlap(a, b) == a.first <= b.last /\ b.first <= a.last
-InPlace(a, b) ==        \* a written by custom op k, b read by k for the last time, a born at k
-   \E k \in S(a.cout) : k \in S(b.cin) /\ b.last = k /\ a.first = k
-Conflict(a, b) == BytesOverlap(a, b) /\ LiveOverlap(a, b) /\ ~InPlace(a, b) /\ ~InPlace(b, a)
+LiveOverlap(a, b, nops) == First(a) <= Last(b, nops) /\ First(b) <= Last(a, nops)
+InPlace(a, b, nops) ==        \* a written by custom op k, b read by k for the last time, a born at k
+   \E k \in S(a.cout) : k \in S(b.cin) /\ Last(b, nops) = k /\ First(a) = k
+Conflict(a, b, nops) == BytesOverlap(a, b) /\ LiveOverlap(a, b, nops) /\ ~InPlace(a, b, nops) /\ ~InPlace(b, a, nops)
 
-NoOverlapLive(plan) == \A i, j \in 1..Len(plan) : i < j => ~Conflict(plan[i], plan[j])
+NoOverlapLive(plan, nops) == \A i, j \in 1..Len(plan) : i < j => ~Conflict(plan[i], plan[j], nops)
 Aligned(plan, align) == \A i \in 1..Len(plan) : plan[i].cpu => plan[i].off % align = 0
 Required(plan) == LET E == {plan[i].off + plan[i].size : i \in 1..Len(plan)} IN
                   IF E = {} THEN 0 ELSE CHOOSE m \in E : \A e \in E : e <= m
+
+Unplaced(acts) == {i \in 1..Len(acts) : ~acts[i].scratch /\ acts[i].size > 0 /\ acts[i].off < 0}
+PlanComplete(acts) == Unplaced(acts) = {}
+
+RECURSIVE SumSizes(_, _)
+SumSizes(acts, I) == IF I = {} THEN 0 ELSE LET i == CHOOSE x \in I : TRUE IN acts[i].size + SumSizes(acts, I \ {i})
+Values(acts) == {i \in 1..Len(acts) : ~acts[i].scratch}
+HeldAfter(acts, k, nops) == {i \in Values(acts) : First(acts[i]) <= k /\ Last(acts[i], nops) >= k + 1}
+LiveAt(acts, k, nops) == {i \in Values(acts) : First(acts[i]) <= k /\ k <= Last(acts[i], nops)}
+SetMax0(X) == IF X = {} THEN 0 ELSE CHOOSE m \in X : \A e \in X : e <= m
+PeakLive(acts, nops, cpuops) ==
+   SetMax0({SumSizes(acts, HeldAfter(acts, k, nops)) : k \in -1..(nops - 1)}
+           \cup {SumSizes(acts, LiveAt(acts, k, nops)) : k \in cpuops})
 =============================================================================
